@@ -95,6 +95,7 @@ CO_SDO *COSdoCheck(CO_SDO *srv, CO_IF_FRM *frm)
 {
     CO_SDO  *result = 0;
     uint8_t  n;
+    uint8_t  cmd;
 
     if (frm != 0) {
         n = 0;
@@ -103,6 +104,13 @@ CO_SDO *COSdoCheck(CO_SDO *srv, CO_IF_FRM *frm)
                 CO_SET_ID(frm, srv[n].TxId);
                 srv[n].Frm   = frm;
                 srv[n].Abort = 0;
+                cmd = CO_GET_BYTE(frm, 0);
+                if ((srv[n].Obj != 0) && (srv[n].Blk.State == BLK_IDLE) &&
+                    (((cmd & 0xF0) == 0x20) || (cmd == 0x40) ||
+                     ((cmd & 0xF9) == 0xC0) || ((cmd & 0xE3) == 0xA0))) {
+                    /* a new initiate request replaces a pending transfer */
+                    srv[n].Obj = 0;
+                }
                 if (srv[n].Obj == 0) {
                     srv[n].Idx = CO_GET_WORD(frm, 1);
                     srv[n].Sub = CO_GET_BYTE(frm, 3);
